@@ -18,6 +18,7 @@ LEVEL = 'proof'
 
 NAMES = ['a', 'ab', 'a_b', 'pkg', 'mod', 'x1', 'A', 'init', '__init__x', 'main']
 TARGETS = [None, 'x', 'xy.z', 'a.b.c', '__init__', 'x1.x1']
+UNAMES = ['gr\u00fcn', 'st\u00fcck', '\u6570\u636e', '\u00e9t\u00e9', 'na\u00efve_pkg']
 
 
 def gen_cases(tier, rnd):
@@ -48,6 +49,13 @@ def gen_cases(tier, rnd):
                         # ... and through the whole glue of kernprof.main (the file handed to the auto-profiling runner)
                         disk.append(dict(pcomps=pcomps, stem=stem, level=level, target=target, via_main=True))
                         disk.append(dict(pcomps=pcomps, stem=stem, level=level, target=target, via_main=True, link='pkg'))
+                        disk.append(dict(pcomps=pcomps, stem=stem, level=level, target=target, via_main=True, link='file'))
+                        if d >= 2:
+                            disk.append(dict(pcomps=pcomps, stem=stem, level=level, target=target, via_main=True, link='sub'))
+                        # package names outside ASCII (PEP 3131 identifiers)
+                        ucomps = [rnd.choice(UNAMES) if i == (level + d) % d else x for i, x in enumerate(pcomps)]
+                        disk.append(dict(pcomps=ucomps, stem=stem, level=level, target=target, via_main=True))
+                        disk.append(dict(pcomps=ucomps, stem=stem, level=level, target=target))
     return unit, disk
 
 
